@@ -137,7 +137,7 @@ def query_evaluation_cannot_raise(ctx):
                      "; ".join(bad) if bad else "noop evaluates to True on every point", ctx.prog.loc(n))
 
 
-@rule("C09.R2", ["C09", "C01"], min_instances=3, design="3.9")
+@rule("C09.R2", ["C09", "C01", "C17"], min_instances=3, design="3.9")
 def path_failure_is_false(ctx):
     """SimpleQuery.__call__ turns a path failure into False and returns the test's verdict uninverted; the resolver walks keys and map functions in order."""
     f = ctx.prog.func("SimpleQuery.__call__", "C09.R2")
@@ -237,7 +237,7 @@ def path_failure_is_false(ctx):
                             texts.append((norm(n.targets[0]), v_))
         ok = any(t_.endswith("._path") and v_ == expect for t_, v_ in texts)
         ok2 = any(t_.endswith("._point_attr") and v_ == "self._point_attr" for t_, v_ in texts)
-        yield Ob("C09.R2", ["C09"], f"{q} | extends the path at the end and keeps the point attribute", ok and ok2,
+        yield Ob("C09.R2", ["C09", "C17"], f"{q} | extends the path at the end and keeps the point attribute", ok and ok2,
                  "path + (part,), same point attribute" if ok and ok2 else
                  "the new query does not append the part to the path / keep the point attribute", g.loc())
 
@@ -451,6 +451,24 @@ def identity_completeness(ctx):
                                 if isinstance(x, ast.Name) and isinstance(x.ctx, ast.Load) and x.id not in bound \
                                         and x.id not in params:
                                     inputs |= param_deps(x.id)
+        def carried(name: str, seen=None) -> Set[str]:
+            """Parameters a local carries *whole*: copies and tuple/frozenset/freeze constructions only
+            (the result of any other call is an image of its arguments, not the arguments)."""
+            seen = seen or set()
+            if name in params:
+                return {name}
+            if name in seen:
+                return set()
+            seen = seen | {name}
+            out: Set[str] = set()
+            for v in assignments_to(f, name):
+                if isinstance(v, ast.Name):
+                    out |= carried(v.id, seen)
+                elif isinstance(v, (ast.Tuple, ast.List)) or (isinstance(v, ast.Call) and isinstance(v.func, ast.Name)
+                                                               and v.func.id in ("tuple", "frozenset", "freeze")):
+                    for nm2 in names_in(v):
+                        out |= carried(nm2, seen)
+            return out
         # what the identity tuple carries: whole parameters / whole locals (an attribute or item of
         # a local, e.g. compiled.pattern, carries only part of it)
         hv_names = set()
@@ -458,11 +476,11 @@ def identity_completeness(ctx):
             elts = hv.elts if isinstance(hv, ast.Tuple) else [hv]
             for e_ in elts:
                 if isinstance(e_, ast.Name):
-                    hv_names |= {e_.id} | param_deps(e_.id)
+                    hv_names |= {e_.id} | carried(e_.id)
                 elif isinstance(e_, (ast.Tuple, ast.List)) or (isinstance(e_, ast.Call) and isinstance(e_.func, ast.Name)
-                                                                 and e_.func.id in ("tuple", "frozenset", "freeze", "str", "repr")):
+                                                                 and e_.func.id in ("tuple", "frozenset", "freeze")):
                     for nm2 in names_in(e_):
-                        hv_names |= {nm2} | param_deps(nm2)
+                        hv_names |= {nm2} | carried(nm2)
                 elif isinstance(e_, ast.Attribute) and isinstance(e_.value, ast.Name) and e_.value.id == "self":
                     pass
                 elif isinstance(e_, (ast.Attribute, ast.Subscript)):
@@ -471,6 +489,8 @@ def identity_completeness(ctx):
                         base = base.value
                     if isinstance(base, ast.Name) and base.id in params:
                         pass  # a projection of a parameter carries only part of it
+                elif isinstance(e_, ast.Call):
+                    pass  # f(x) (getattr(func, "__qualname__"), str(x), hash(x), ...) carries only an image of x
                 else:
                     hv_names |= names_in(e_)
         hv_attrs = {n.attr for n in ast.walk(hv) if isinstance(n, ast.Attribute)} if hv is not None else set()
